@@ -389,8 +389,14 @@ func (c *vfPMMChecker) checkConfig(cfg vfConfig, mode string) {
 				if ferr != want {
 					c.report("C03", "free-error-kind", cfg, mode, fmt.Sprintf("FreeFrame(%d): got %q want %q", pf, ferr.Message, want.Message))
 				}
-				if vfBitmapKey(alloc) != before {
+				if after := vfBitmapKey(alloc); after != before {
 					c.report("C03", "rejected-free-changed-state", cfg, mode, fmt.Sprintf("with %v held FreeFrame(%d)", cur.held, pf))
+					// the allocator is now in a state no valid history reaches: follow it too, so that what it hands
+					// out afterwards is checked against the ownership model (C01)
+					if k := keyOf(cur.held) + "|" + after; !seen[k] && len(seen) < 4000 {
+						seen[k] = true
+						frontier = append(frontier, st{vfTake(alloc, used), cur.held})
+					}
 				}
 			}
 		}
